@@ -79,9 +79,18 @@ func prop(c harness.Case) harness.Result {
 
 const rule = "documents from G1/G2/G3, every root block re-parsed alone with the document's reference map; excluded exactly: a Paragraph/SetextHeading whose StartOffset equals the EndOffset of a preceding LinkReferenceDefinition root block; non-trivial = document has >= 2 root blocks and some block is a container, code block or HTML block, or ends without a line ending"
 
-func TestProperty(t *testing.T) {
-	harness.Run(t, harness.Plan{Prop: "C16", Suppress: findings.Suppressor("C16"), Checks: []harness.Check{
+func plan() harness.Plan {
+		return harness.Plan{Prop: "C16", Suppress: findings.Suppressor("C16"), Checks: []harness.Check{
 		{Name: "reparse", Quick: 100000, Thorough: 1500000, Gen: func(t *rapid.T) harness.Case { return harness.Case{In: gen.Doc().Draw(t, "in")} }, Prop: prop, Rule: rule},
 		{Name: "reparse_lines", Quick: 50000, Thorough: 700000, Gen: func(t *rapid.T) harness.Case { return harness.Case{In: gen.Lines().Draw(t, "in")} }, Prop: prop, Rule: "G2 only: " + rule},
-	}})
+	}}
+}
+
+func TestProperty(t *testing.T) {
+	harness.Run(t, plan())
+}
+
+// FuzzProperty is the native coverage-guided fuzz entry (thorough tier).
+func FuzzProperty(f *testing.F) {
+	harness.FuzzTarget(f, plan(), "reparse", gen.SeedCorpus())
 }
